@@ -68,18 +68,23 @@ SubItemCls(x) == IF x.ty = "pair" THEN "ValueError" ELSE IF x.ty = "str" /\ Len(
 SubTopics(arg, qos) ==
   CASE arg.ty = "str"  -> [ok |-> IsInt(qos), ts |-> <<<<arg.v, IF IsInt(qos) THEN qos.v ELSE 0>>>>, cls |-> "TypeError"]
     [] arg.ty = "pair" -> [ok |-> TRUE, ts |-> <<<<arg.t, arg.q>>>>, cls |-> ""]
-    [] arg.ty = "list" -> IF \A i \in 1..Len(arg.items) : arg.items[i].ty = "pair"
+    [] arg.ty = "list" -> IF arg.items = <<>>          \* a SUBSCRIBE without a topic filter is no packet at all [MQTT-3.8.3-3]
+                          THEN [ok |-> FALSE, ts |-> <<>>, cls |-> "ValueError"]
+                          ELSE IF \A i \in 1..Len(arg.items) : arg.items[i].ty = "pair"
                           THEN [ok |-> TRUE, ts |-> [i \in 1..Len(arg.items) |-> <<arg.items[i].t, arg.items[i].q>>], cls |-> ""]
                           ELSE LET bad == SelectSeq(arg.items, SubItemBad) IN
                                [ok |-> FALSE, ts |-> <<>>, cls |-> SubItemCls(bad[1])]
     [] OTHER -> [ok |-> FALSE, ts |-> <<>>, cls |-> "TypeError"]
 \* listOK: the argument passes _checkUnsubscribe (it is a list after normalisation); a list with items that are not texts
 \* is refused only by encode(), after the second identifier has been taken
+\* (an empty list is refused by the check as well - ValueError, [MQTT-3.10.3-2] - i.e. before the second identifier)
 UnsubTopics(arg) ==
-  CASE arg.ty = "str"  -> [ok |-> TRUE, ts |-> <<arg.v>>, listOK |-> TRUE]
-    [] arg.ty = "list" -> IF \A i \in 1..Len(arg.items) : arg.items[i].ty = "str"
-                          THEN [ok |-> TRUE, ts |-> [i \in 1..Len(arg.items) |-> arg.items[i].v], listOK |-> TRUE]
-                          ELSE [ok |-> FALSE, ts |-> <<>>, listOK |-> TRUE]
-    [] OTHER -> [ok |-> FALSE, ts |-> <<>>, listOK |-> FALSE]
+  CASE arg.ty = "str"  -> [ok |-> TRUE, ts |-> <<arg.v>>, listOK |-> TRUE, cls |-> ""]
+    [] arg.ty = "list" -> IF arg.items = <<>>
+                          THEN [ok |-> FALSE, ts |-> <<>>, listOK |-> FALSE, cls |-> "ValueError"]
+                          ELSE IF \A i \in 1..Len(arg.items) : arg.items[i].ty = "str"
+                          THEN [ok |-> TRUE, ts |-> [i \in 1..Len(arg.items) |-> arg.items[i].v], listOK |-> TRUE, cls |-> ""]
+                          ELSE [ok |-> FALSE, ts |-> <<>>, listOK |-> TRUE, cls |-> "TypeError"]
+    [] OTHER -> [ok |-> FALSE, ts |-> <<>>, listOK |-> FALSE, cls |-> "TypeError"]
 
 =============================================================================
